@@ -297,28 +297,29 @@ impl Pattern {
      * Implement csh-style alternate matches.  Pattern::new() has already
      * verified that the pattern is valid and the braces are correctly balanced.
      *
-     * The algorithm starts at the right-most opening brace and iteratively works
-     * backwards, expanding each alternate match and recursively calling Pattern
-     * to verify that there is a match.
+     * The right-most opening brace and the first closing brace that follows
+     * it always delimit an innermost group.  Each of its alternatives is
+     * substituted in turn and Pattern is called recursively on the result,
+     * which expands the remaining groups in the same way, so every string of
+     * the expansion is tried exactly once.
      */
     fn alternate_match(pattern: &str, pkg: &str) -> bool {
-        for (i, _) in
-            pattern.match_indices('{').collect::<Vec<_>>().iter().rev()
-        {
-            let (first, rest) = pattern.split_at(*i);
-            /* This shouldn't fail as new() already verified, but... */
-            let Some(n) = rest.find('}') else {
-                return false;
-            };
-            let (matches, last) = rest.split_at(n + 1);
-            let matches = &matches[1..matches.len() - 1];
+        /* These shouldn't fail as new() already verified, but... */
+        let Some(i) = pattern.rfind('{') else {
+            return false;
+        };
+        let (first, rest) = pattern.split_at(i);
+        let Some(n) = rest.find('}') else {
+            return false;
+        };
+        let (matches, last) = rest.split_at(n + 1);
+        let matches = &matches[1..matches.len() - 1];
 
-            for m in matches.split(',') {
-                let fmt = format!("{}{}{}", first, m, last);
-                if let Ok(pat) = Pattern::new(&fmt) {
-                    if pat.matches(pkg) {
-                        return true;
-                    }
+        for m in matches.split(',') {
+            let fmt = format!("{}{}{}", first, m, last);
+            if let Ok(pat) = Pattern::new(&fmt) {
+                if pat.matches(pkg) {
+                    return true;
                 }
             }
         }
